@@ -44,7 +44,8 @@ def err_code(msg):
 TIME_POOL = [1325376000, 1325376000 + 6 * 3600, 1325462400, 1327968000, 1328054400 + 12 * 3600, 1330473600,
              1330560000, 1356912000, 1356998400, 1357016400, 951782400, 951868800, 1204243200 + 18 * 3600,
              86400 * 365, 1330300800, 1330300800 + 1800,
-             -43200, -86400 * 400 + 6 * 3600, -86400 * 400]           # before 1970 (hindcasts), not all at 00 UTC
+             -43200, -86400 * 400 + 6 * 3600, -86400 * 400,           # before 1970 (hindcasts), not all at 00 UTC
+             943078800, 951891600, 1893824400, 1325443200]              # 06:20 UTC in 1999, 2000 and 2030; 18:40 UTC: the same clock time on dates far apart
 LEAD_POOL = [0.0, 1.0, 1.5, 3.0, 6.0, 12.0, 23.0, 24.0, 25.5, 47.999, 48.0, 72.0]
 LOC_POOL = [(1, 60.0, 10.0, 100.0), (2, 60.5, 10.5, 0.0), (7, 59.0, -120.0, 250.0), (18, -33.5, 151.25, 12.0),
             (41, 60.0, 10.0, 100.0), (3, 89.0, 179.0, 2500.0), (100, 0.0, 0.0, -5.0),
@@ -162,7 +163,7 @@ def gen_dataset(rng, options=True):
             ds = sorted({int(t // 86400) * 86400 for t in alltimes})
             cfg["dates"] = [rng.choice(ds) + rng.choice([0, 0, 86400]) for _ in range(rng.randint(1, 3))]
         if rng.random() < 0.15:
-            hours = [(t % 86400) / 3600.0 for t in alltimes]
+            hours = [(t % 86400) / 3600.0 for t in alltimes if (t % 86400) % 36 == 0]      # hours expressible in thousandths (the model's unit); 06:20 is not
             cfg["tods"] = [rng.choice(hours + hours + [5, 0.5]) for _ in range(rng.randint(1, 2))]
         if rng.random() < 0.15:
             cfg["leads"] = [near(allleads, 0.5) for _ in range(rng.randint(1, 5) if rng.random() < 0.9 else 0)]
